@@ -369,7 +369,9 @@ fn check_case(rep: &mut Report, rng: &mut Rng, c: &Case, thread_name: Option<&st
     }
     for k in seen.keys() {
         if !want.contains_key(k) {
-            return bad(rep, &format!("C12:unexpected-key:{}", k),
+            let known = ["message", "level", "target", "module_path", "file", "line", "thread", "thread_id"];
+            let label = if known.contains(&k.as_str()) { k.as_str() } else { "other" };
+            return bad(rep, &format!("C12:unexpected-key:{}", label),
                 format!("key `{}` must be omitted for this record (absent optional field) or is unknown", k), b);
         }
     }
